@@ -173,6 +173,108 @@ func build(s string) *node {
 	_ = w
 `, nil)
 
+	// 2b. recursion reached from inside closures that capture the tainted value (closure context + call recursion)
+	add("closure-recursion", nil, `
+func pad(s string, n int) string {
+	if n == 0 {
+		return s
+	}
+	return pad(s+" ", n-1)
+}
+
+func pingA(s string, n int) string {
+	if n == 0 {
+		return s
+	}
+	return pingB(s, n-1)
+}
+
+func pingB(s string, n int) string { return pingA(s+"b", n) }
+
+type acc struct{ v string }
+
+func (a *acc) grow(n int) string {
+	if n == 0 {
+		return a.v
+	}
+	a.v += "g"
+	return a.grow(n - 1)
+}
+`, `	x := rt.Source(1)
+	f := func() string { return pad(x, 3) }
+	rt.Sink(1, f())
+	g := func(k int) string {
+		h := func() string { return pingA(x, k) }
+		return h()
+	}
+	rt.Sink(2, g(2))
+	a := &acc{v: x}
+	m := func() string { return a.grow(2) }
+	rt.Sink(3, m())
+	var self func(int) string
+	self = func(k int) string {
+		if k == 0 {
+			return pad(x, 1)
+		}
+		return self(k - 1)
+	}
+	rt.Sink(4, self(2))
+`, nil)
+
+	// 3b. several distinct defers per loop iteration, in branches, nested loops and with goto
+	add("defers-multi-loop", []string{"sync"}, `
+func acquireAll(ms []*sync.Mutex, s string) (r string) {
+	for _, m := range ms {
+		m.Lock()
+		defer m.Unlock()
+		defer func() { r += s }()
+	}
+	return s
+}
+
+func threePerIteration(s string, n int) (r string) {
+	for i := 0; i < n; i++ {
+		defer func() { r += "a" }()
+		if i%2 == 0 {
+			defer func() { r += s }()
+		} else {
+			defer func() { r += "c" }()
+		}
+		defer rt.Nop()
+	}
+	return s
+}
+
+func nestedLoops(s string, n int) (r string) {
+	for i := 0; i < n; i++ {
+		defer func() { r += "o" }()
+		for j := 0; j < i; j++ {
+			defer func() { r += s }()
+			defer func() { r += "i" }()
+		}
+	}
+	return s
+}
+
+func gotoTwo(s string, n int) (r string) {
+	i := 0
+again:
+	defer func() { r += s }()
+	defer func() { r += "g" }()
+	i++
+	if i < n {
+		goto again
+	}
+	return s
+}
+`, `	x := rt.Source(1)
+	ms := []*sync.Mutex{{}, {}}
+	rt.Sink(1, acquireAll(ms, x))
+	rt.Sink(2, threePerIteration(x, 3))
+	rt.Sink(3, nestedLoops(x, 3))
+	rt.Sink(4, gotoTwo(x, 2))
+`, nil)
+
 	// 3. defers everywhere
 	add("defers", nil, `
 func loopDefers(s string, n int) (r string) {
